@@ -326,7 +326,7 @@ def run(ctx):
     if ctx.prop == "C02" and not getattr(ctx, "_sharing", False):
         from .common import share
         share(ctx, "C03", ("R03.1",), "R02.7", "source-order obligations shared with C03", 3)
-        share(ctx, "C01", ("R01.8", "R01.10"), "R02.7", "bundle obligations shared with C01", 3)
+        share(ctx, "C01", ("R01.5", "R01.8", "R01.10"), "R02.7", "matching/bundle obligations shared with C01", 5)
     ctx.assume("the round-trip equation itself, interleavings of items and as<T>() numeric conversion are not decided")
 
 
